@@ -43,7 +43,7 @@ func parseGet(resp []byte) (string, error) {
 func runConcurrentGets(c Case) (msg string, nontrivial bool) {
 	f, err := newFixture(c.Cfg)
 	if err != nil {
-		return "VERIF-INCONCLUSIVE: " + err.Error(), false
+		return verdict(err), false
 	}
 	defer f.cleanup()
 	ridFor := func(id string) string {
@@ -134,7 +134,7 @@ func runConcurrentGets(c Case) (msg string, nontrivial bool) {
 	for _, rid := range rids {
 		v, err := f.get(rid)
 		if err != nil {
-			return "VERIF-INCONCLUSIVE: " + err.Error(), false
+			return verdict(err), false
 		}
 		final[rid] = v
 	}
@@ -214,7 +214,7 @@ func TestPropConcurrentGets(t *testing.T) {
 func runConcurrentWriters(c Case, writers int) (msg string, nontrivial bool) {
 	f, err := newFixture(c.Cfg)
 	if err != nil {
-		return "VERIF-INCONCLUSIVE: " + err.Error(), false
+		return verdict(err), false
 	}
 	defer f.cleanup()
 	ridFor := func(id string) string {
@@ -313,7 +313,7 @@ func runConcurrentWriters(c Case, writers int) (msg string, nontrivial bool) {
 		}
 		fresh, err := f.get(rid)
 		if err != nil {
-			return "VERIF-INCONCLUSIVE: " + err.Error(), false
+			return verdict(err), false
 		}
 		if want, ok := finalWant[rid]; ok && fresh != want {
 			return fmt.Sprintf("%d writers on different ids: a get of %s returns %q, its mutations leave %q", writers, rid, fresh, want), true
